@@ -30,3 +30,1009 @@ import classtable as ct
 PROP = "C04"
 LEAN_MODULE = "SkVerif.Props.C04"
 APPLY = ct.APPLY_METHODS
+import recorders_C04 as R
+
+OBLIGATIONS = []   # filled in below (kept as a literal list further down)
+TRUSTED = [
+    "harness/extract/classtable.py (AST translator: source -> ClassTable/GuardTable/FitWrites); cross-checked per importable class against the running class (parameters, MRO, get_params implementation, observed constructor / guard / fit behaviour)",
+    "classes outside the package (scikit-learn bases) are leaves: their constructors are ASSUMED to store keyword arguments under their own names (leading positional names from the 0.24 signatures)",
+    "hand-written model SkVerif/Model/Params.lean of sklearn BaseEstimator.get_params/set_params/clone and sktime _HeterogenousMetaEstimator (exercised by the tree histories)",
+    "Python's object model abstracted to an attribute store; __setattr__/__getattr__ overrides and properties shadowing parameters are flagged (hooks) and make a class not well-formed",
+]
+ASSUMPTIONS = [
+    "expressions in constructors are side-effect free except for the listed statement forms",
+    "inputs given to apply-type methods are valid (validation of the arguments before the fitted-state check is not an error)",
+    "no two parameters of one object alias the same mutable estimator",
+    "23 classes cannot be imported here (soft dependencies / unbuilt extensions): constructor contract, guards and fit writes are decided statically only",
+]
+RULE = ("one table case per estimator class of the package (all, every run); tree cases = fixed-order exhaustive scope "
+        "(every key of every depth-2 composition of the composite classes, quick: seed-rotated slice) + random compositions to depth 3 "
+        "with random histories of get/set/clone/apply + malformed keys. distinct by driver line; non-trivial = class observed "
+        "dynamically (table) / at least one successful set_params or clone (tree)")
+LEVEL_TEXT = "proof (model) + translation (tables regenerated and kernel-checked each run) + correspondence"
+LEVEL_NOTE = "see findings/C04.md"
+TECHNIQUE = "Lean 4 theorems over any class table / parameter tree; decide +kernel on regenerated tables; differential testing against the running classes"
+
+FIT_ATTR, FIT_NAME = "_is_fitted", "fit"
+
+# ------------------------------------------------------------------------------------------------
+#  table: generate, evaluate (pass 1), kernel-check (pass 2)
+# ------------------------------------------------------------------------------------------------
+_TABLE = None
+
+
+def _fail_harness(msg):
+    print("HARNESS-ERROR: " + msg, flush=True)
+    sys.stdout.flush()
+    os._exit(2)
+
+
+def _lean(path, timeout=900):
+    return subprocess.run(["lake", "env", "lean", path], cwd=LEAN, capture_output=True, text=True, timeout=timeout)
+
+
+def _summary_term(s):
+    f = dict(t.split("=", 1) for t in s.split(" "))
+    nl = lambda x: "[" + ("" if x == "-" else x) + "]"
+    ps = {"S": ".stored", "M": ".missing", "U": ".unknown"}
+    gs = {"A": ".absent", "G": ".guarded", "U": ".unguarded"}
+
+    def impl(x):
+        if x in ("p", "x", "c"):
+            return {"p": ".plain", "x": ".abstr", "c": ".custom"}[x]
+        _, a, b = x.split("/")
+        return "(.viaMeta %s %s)" % (a, b)
+    b = lambda x: "true" if x == "T" else "false"
+    return ("{ params := %s, ctor := [%s], mayRaise := %s, varargs := %s, freshUnfitted := %s, getImpl := %s, "
+            "setImpl := %s, guards := [%s], fitWrites := %s, fitUnknown := %s, fitSetsFitted := %s, "
+            "fitAbstract := %s, hooks := %s }" % (
+                nl(f["params"]), ", ".join(ps[x] for x in f["ctor"].split(",") if x != "-"), b(f["raise"]),
+                b(f["varargs"]), b(f["fresh"]), impl(f["get"]), impl(f["set"]),
+                ", ".join(gs[x] for x in f["guards"].split(",") if x != "-"), nl(f["fitw"]), b(f["fitu"]),
+                b(f["fitset"]), b(f["fitabs"]), b(f["hooks"])))
+
+
+def build_table():
+    """Translate the current source, compile the table, evaluate and kernel-check every class summary."""
+    global _TABLE
+    if _TABLE is not None:
+        return _TABLE
+    t0 = time.time()
+    data = ct.extract()
+    txt, I = ct.to_lean(data)
+    txt = txt.replace("import SkVerif.Model.Params", "import SkVerif.Model.Params\nimport SkVerif.Drv.C04")
+    ests = data["estimators"]
+    ids = {k: I(k) for k in ests}
+    am = [I(m) for m in APPLY]
+    fa, fn = I(FIT_ATTR), I(FIT_NAME)
+    call = "summarize tbl %d %d %s" % (fa, fn, am)
+    gen = os.path.join(VERIF, ".gen", "%d-c04" % os.getpid())
+    os.makedirs(gen, exist_ok=True)
+    try:
+        p1 = os.path.join(gen, "Pass1.lean")
+        with open(p1, "w") as fh:
+            fh.write(txt)
+            fh.write("\n#eval (%s : List Nat).forM (fun c => IO.println (s!\"S {c} \" ++ SkVerif.Drv.C04.showSummary (%s c)))\n" % (
+                sorted(ids.values()), call))
+            fh.write("end SkVerif.Gen\n")
+        r = _lean(p1)
+        sums = {}
+        for l in r.stdout.splitlines():
+            if l.startswith("S "):
+                _, cid, rest = l.split(" ", 2)
+                sums[int(cid)] = rest
+        if r.returncode != 0 or len(sums) != len(ids):
+            _fail_harness("generated class table does not compile / evaluate:\n" + (r.stdout + r.stderr)[-3000:])
+        # pass 2: the kernel re-checks every summary (decide +kernel), in parallel chunks
+        nchunk = 6
+        order = sorted(ids.items(), key=lambda kv: kv[1])
+        chunks = [order[i::nchunk] for i in range(nchunk)]
+        results = [None] * nchunk
+
+        def work(j):
+            pj = os.path.join(gen, "Pass2_%d.lean" % j)
+            thm_line = {}
+            with open(pj, "w") as fh:
+                fh.write(txt)
+                nlines = txt.count("\n") + 1
+                for key, cid in chunks[j]:
+                    fh.write("\ntheorem s_%d : %s %d = %s := by decide +kernel" % (cid, call, cid, _summary_term(sums[cid])))
+                    nlines += 1
+                    thm_line[nlines] = key
+                fh.write("\nend SkVerif.Gen\n")
+            results[j] = (_lean(pj), thm_line)
+        ths = [threading.Thread(target=work, args=(j,)) for j in range(nchunk)]
+        for th in ths:
+            th.start()
+        for th in ths:
+            th.join()
+        kernel = {k: True for k in ests}
+        klog = []
+        for (res, thm_line) in results:
+            if res.returncode != 0:
+                hit = False
+                for m in re.finditer(r"Pass2_\d+\.lean:(\d+):\d+: error", res.stdout + res.stderr):
+                    ln = int(m.group(1))
+                    if ln in thm_line:
+                        kernel[thm_line[ln]] = False
+                        hit = True
+                klog.append((res.stdout + res.stderr)[-1500:])
+                if not hit:
+                    _fail_harness("kernel pass failed outside a class obligation:\n" + klog[-1])
+    finally:
+        shutil.rmtree(gen, ignore_errors=True)
+        try:
+            os.rmdir(os.path.join(VERIF, ".gen"))
+        except OSError:
+            pass
+    names = {n: i for i, n in enumerate(I.names)}
+    _TABLE = {"data": data, "names": names, "idnames": list(I.names), "ids": ids,
+              "summary": {k: sums[ids[k]] for k in ests}, "kernel": kernel, "klog": klog,
+              "wall": round(time.time() - t0, 1)}
+    print("C04 table: %d estimator classes translated, %d summaries kernel-checked (%d refused) in %.1fs" % (
+        len(ests), len(ests), sum(1 for v in kernel.values() if not v), _TABLE["wall"]), flush=True)
+    return _TABLE
+
+
+def _sfields(s):
+    return dict(t.split("=", 1) for t in s.split(" "))
+
+
+def _lst(x):
+    return [] if x in ("-", "") else x.split(",")
+
+
+def static_of(key):
+    """kernel-checked summary of a class as a dict with names instead of ids"""
+    T = build_table()
+    f = _sfields(T["summary"][key])
+    nm = T["idnames"]
+    params = [nm[int(i)] for i in _lst(f["params"])]
+    return {"params": params, "ctor": dict(zip(params, _lst(f["ctor"]))), "raise": f["raise"] == "T",
+            "varargs": f["varargs"] == "T", "fresh": f["fresh"] == "T", "get": f["get"], "set": f["set"],
+            "guards": dict(zip(APPLY, _lst(f["guards"]))), "fitw": [nm[int(i)] for i in _lst(f["fitw"])],
+            "fitu": f["fitu"] == "T", "fitset": f["fitset"] == "T", "fitabs": f["fitabs"] == "T",
+            "hooks": f["hooks"] == "T"}
+
+
+def owner_of(key, method):
+    """class of the MRO that defines the method (per the table)"""
+    cl = build_table()["data"]["classes"]
+    for k in cl[key]["mro"]:
+        if k in cl and method in cl[k]["methods"]:
+            return cl[k]["name"]
+    return "external"
+
+
+# ------------------------------------------------------------------------------------------------
+#  table cases: real side
+# ------------------------------------------------------------------------------------------------
+_PROBE_CACHE = {}
+
+
+def probe(key, tier="quick"):
+    if key in _PROBE_CACHE:
+        return _PROBE_CACHE[key]
+    c = build_table()["data"]["classes"][key]
+    o = R.probe_class(c["module"], c["name"], key, None, do_fit=True, budget_s=15.0 if tier == "quick" else 60.0)
+    _PROBE_CACHE[key] = o
+    return o
+
+
+def real_table(case):
+    T = build_table()
+    key = case["cls"]
+    if key not in T["summary"]:
+        return "gone"
+    o = probe(key)
+    if o["import"] != "ok":
+        return "skip " + o["import"].split(":", 1)[1].replace(" ", "_")[:60]
+    names = T["names"]
+    ids = [str(names.get(p, "?" + p)) for p in o["params"]]
+    g = o["get"]
+    if g.startswith("m:"):
+        g = "m/%s" % names.get(g[2:], "?" + g[2:])
+    parts = ["params=" + (",".join(ids) or "-"),
+             "ctor=" + (",".join(o["ctor"]) or "-"),
+             "extra=" + o["extra"], "fresh=" + o["fresh"], "get=" + g,
+             "rt=" + o["rt"].replace(" ", "_"), "cl=" + o["cl"].replace(" ", "_"), "unk=" + o["unk"],
+             "guards=" + ",".join(o["guards"]),
+             "fit=" + ("skip" if o["fit"] is None else (",".join(o["fit"]) or "-")),
+             "ret=" + o["ret"], "fitted=" + o["fitted"]]
+    return " ".join(parts)
+
+
+def _compat_tok(model, real):
+    if model == "?" or real == "skip":
+        return True
+    if model == "-" or real == "-":
+        return True          # method provided by / hidden from outside the package
+    return model == real
+
+
+def compare_table(real, model):
+    if real.startswith("skip") or real == "gone":
+        return True
+    r, m = _sfields(real), _sfields(model)
+    if r["params"] != m["params"]:
+        return False
+    for fld in ("ctor", "guards", "fit"):
+        rl, ml = _lst(r[fld]), _lst(m[fld])
+        if rl == ["skip"]:
+            continue
+        if len(rl) != len(ml) or not all(_compat_tok(a, b) for a, b in zip(ml, rl)):
+            return False
+    if not _compat_tok(m["fresh"], r["fresh"]):
+        return False
+    mg, rg = m["get"], r["get"]
+    if mg.startswith("m/"):
+        mg = "/".join(mg.split("/")[:2])
+    if mg != "c" and rg != "c" and mg != rg:
+        return False
+    return True
+
+
+def oracle_table(case, real):
+    """The property text, on what the running class did; for classes that cannot run, on the kernel-checked table."""
+    T = build_table()
+    key = case["cls"]
+    if real == "gone":
+        return []
+    st = static_of(key)
+    cname = T["data"]["classes"][key]["name"]
+    fails = []
+    if not T["kernel"].get(key, True):
+        fails.append(("harness:kernel-refused-summary:" + cname, "the kernel did not confirm the evaluated summary of %s" % key))
+    dyn = not real.startswith("skip")
+    r = _sfields(real) if dyn else {}
+    abstract_proto = st["get"] == "x" or st["set"] == "x"
+    # --- constructor contract
+    dyn_ctor = dict(zip(st["params"], _lst(r["ctor"]))) if dyn and _lst(r.get("ctor", "")) != ["skip"] else {}
+    any_param_fail = False
+    for p in st["params"]:
+        s_tok = st["ctor"].get(p, "U")
+        d_tok = dyn_ctor.get(p, "skip")
+        bad_dyn = d_tok not in ("S", "skip")
+        bad_st = s_tok != "S"
+        if bad_dyn or bad_st:
+            any_param_fail = True
+            what = {"C": "get_params returns a different object than was passed",
+                    "M": "the argument is not stored under its own name (get_params raises AttributeError)",
+                    "R": "the constructor raises for some values (it inspects / transforms the argument)",
+                    "skip": "not observable here", "S": "stored for the probed values"}[d_tok]
+            fails.append(("%s:ctor:%s" % (cname, p),
+                          "constructor parameter %s.%s: table says %s, observed %s (%s)" % (
+                              cname, p, {"S": "stored", "M": "never stored", "U": "not provably stored"}[s_tok], d_tok, what)))
+    if st["raise"] and not any_param_fail:
+        fails.append(("%s:ctor-validates" % cname, "the constructor of %s can raise (validation / computation in __init__)" % cname))
+    if st["varargs"] or r.get("extra") == "A":
+        fails.append(("%s:ctor-varargs" % cname, "%s.__init__ accepts arguments (*args/**kwargs) that get_params cannot return" % cname))
+    if st["hooks"]:
+        fails.append(("%s:attr-hooks" % cname, "%s overrides attribute access" % cname))
+    # --- fresh / cloned estimator is unfitted
+    if dyn:
+        if r["fresh"] not in ("F", "skip"):
+            fails.append(("%s:fresh-is_fitted" % cname, "fresh %s reports is_fitted = %s" % (cname, r["fresh"])))
+    elif not st["fresh"]:
+        fails.append(("%s:fresh-is_fitted" % cname, "constructor of %s does not set _is_fitted = False (table)" % cname))
+    # --- get/set/clone protocol on the default instance
+    if dyn and not abstract_proto:
+        if r["rt"] not in ("ok", "skip"):
+            fails.append(("%s:set_params-roundtrip" % cname, "set_params(**get_params()) on %s: %s" % (cname, r["rt"])))
+        if r["cl"] not in ("ok", "skip"):
+            fails.append(("%s:clone" % cname, "clone(%s): %s" % (cname, r["cl"])))
+        if r["unk"] not in ("E:value", "skip"):
+            fails.append(("%s:unknown-param" % cname, "set_params(unknown name) on %s: %s" % (cname, r["unk"])))
+    # --- fitted-state guards
+    gl = _lst(r["guards"]) if dyn else ["skip"] * len(APPLY)
+    for m, tok in zip(APPLY, gl):
+        s_tok = st["guards"].get(m, "A")
+        if tok in ("NF", "-"):
+            continue
+        if tok == "skip":
+            if s_tok == "U" and not st["fitabs"] and not dyn:
+                fails.append(("%s.%s:unfitted" % (owner_of(key, m), m),
+                              "%s.%s (static only): no fitted-state check before first use of fitted state" % (cname, m)))
+            continue
+        fails.append(("%s.%s:unfitted" % (owner_of(key, m), m),
+                      "%s.%s on an unfitted / freshly cloned estimator: %s instead of NotFittedError" % (cname, m, tok)))
+    # --- fit
+    ft = _lst(r["fit"]) if dyn else ["skip"]
+    dyn_fit = dict(zip(st["params"], ft)) if ft != ["skip"] else {}
+    for p in st["params"]:
+        d_tok = dyn_fit.get(p, "skip")
+        if d_tok in ("W", "Wm") or (p in st["fitw"] and not st["fitabs"]):
+            fails.append(("%s:fit-writes:%s" % (cname, p),
+                          "fit of %s assigns constructor parameter %s (table: %s, observed: %s)" % (
+                              cname, p, "assigned" if p in st["fitw"] else "-", d_tok)))
+    if dyn:
+        if r["ret"] not in ("self", "skip"):
+            fails.append(("%s:fit-returns" % cname, "%s.fit returned %s" % (cname, r["ret"])))
+        if r["fitted"] not in ("T", "skip"):
+            fails.append(("%s:fit-is_fitted" % cname, "after fit %s.is_fitted = %s" % (cname, r["fitted"])))
+    # --- translator cross-check: MRO
+    o = _PROBE_CACHE.get(key)
+    if dyn and o and o.get("mro"):
+        cl = T["data"]["classes"]
+        tm = [cl[k]["name"] for k in cl[key]["mro"] if k in cl and not cl[k]["external"]]
+        if tm != o["mro"]:
+            fails.append(("translator:mro:" + cname, "MRO in table %r, running class %r" % (tm, o["mro"])))
+    return fails
+
+
+# ------------------------------------------------------------------------------------------------
+#  tree cases: random compositions and histories
+# ------------------------------------------------------------------------------------------------
+# (table key, kind) ; kind: leaf | plain composite (estimator-valued parameters) | meta (named components)
+EXTERNAL_CLASSES = {"LinearRegression": ("sklearn.linear_model", ["copy_X", "fit_intercept", "n_jobs", "positive"])}
+POOL = {
+    "NaiveForecaster": {"est": []},
+    "PolynomialTrendForecaster": {"est": ["regressor"]},
+    "ExponentialSmoothing": {"est": []},
+    "ThetaForecaster": {"est": []},
+    "BoxCoxTransformer": {"est": []},
+    "LogTransformer": {"est": []},
+    "Imputer": {"est": []},
+    "HampelFilter": {"est": []},
+    "TimeSeriesForestClassifier": {"est": []},
+    "LinearRegression": {"est": []},
+    "Detrender": {"est": ["forecaster"]},
+    "OptionalPassthrough": {"est": ["transformer"]},
+    "TabularToSeriesAdaptor": {"est": ["transformer"]},
+    "RecursiveTabularRegressionForecaster": {"est": ["estimator"]},
+    "DirectTimeSeriesRegressionForecaster": {"est": ["estimator"]},
+    "ForecastingGridSearchCV": {"est": ["forecaster"]},
+    "ForecastingRandomizedSearchCV": {"est": ["forecaster"]},
+    "FittedParamExtractor": {"est": ["forecaster"]},
+    "SeriesToSeriesRowTransformer": {"est": ["transformer"]},
+    "TransformedTargetForecaster": {"est": [], "named": "steps"},
+    "EnsembleForecaster": {"est": [], "named": "forecasters"},
+    "StackingForecaster": {"est": ["final_regressor"], "named": "forecasters"},
+    "MultiplexForecaster": {"est": [], "named": "forecasters"},
+    "OnlineEnsembleForecaster": {"est": [], "named": "forecasters"},
+    "ColumnEnsembleClassifier": {"est": [], "named": "estimators", "triples": True, "pin": {"remainder": "drop"}},
+}
+COMP_NAMES = ["a", "b", "c", "f1", "t"]
+
+
+def pool_classes():
+    """classes usable in compositions: constructor statically well-formed (kernel-checked) and importable"""
+    T = build_table()
+    out = {}
+    for key, spec in POOL.items():
+        if key in EXTERNAL_CLASSES:
+            out[key] = dict(spec, params=EXTERNAL_CLASSES[key][1], impl="p")
+            continue
+        if key not in T["summary"]:
+            continue
+        st = static_of(key)
+        pinned = set(spec.get("pin", {}))
+        if st["raise"] or st["hooks"] or any(st["ctor"][p] != "S" for p in st["params"] if p not in pinned):
+            continue
+        c = T["data"]["classes"][key]
+        cls, err = R.load_class(c["module"], c["name"])
+        if cls is None:
+            continue
+        impl = st["get"]
+        if impl.startswith("m/"):
+            _, a, b = impl.split("/")
+            impl = "m/%s/%s" % (T["idnames"][int(a)], T["idnames"][int(b)])
+        if st["set"] != st["get"] or impl in ("x", "c"):
+            continue
+        out[key] = dict(spec, params=st["params"], impl=impl)
+    return out
+
+
+class Gen:
+    """random abstract trees;  node = ["a", id] | ["e", id, cls, {param: node}] | ["n", [[name, node], ...]]"""
+
+    def __init__(self, rng, pool):
+        self.rng, self.pool, self.next_id = rng, pool, 1
+        self.leaves = [k for k, v in pool.items() if not v["est"] and "named" not in v]
+        self.comps = [k for k, v in pool.items() if v["est"] or "named" in v]
+
+    def atom(self):
+        return ["a", self.rng.choice([0, 0, 1, 2, 3, 4, 5, 6, 7])]
+
+    def est(self, depth, cls=None):
+        rng = self.rng
+        if cls is None:
+            cls = rng.choice(self.leaves) if depth <= 1 or (rng.random() < 0.3 and self.leaves) else rng.choice(self.comps or self.leaves)
+        spec = self.pool[cls]
+        nid = self.next_id
+        self.next_id += 1
+        ps = {}
+        for p in spec["params"]:
+            if p in spec.get("pin", {}):
+                ps[p] = ["a", 900]
+            elif p == spec.get("named"):
+                n = rng.choice([1, 2, 2, 3])
+                names = rng.sample(COMP_NAMES, n) if rng.random() < 0.92 else [rng.choice(COMP_NAMES) for _ in range(n)]
+                ps[p] = ["n", [[nm, self.est(depth - 1) if rng.random() < 0.9 else self.atom()] for nm in names]]
+            elif p in spec["est"]:
+                ps[p] = self.est(depth - 1) if rng.random() < 0.8 else self.atom()
+            else:
+                ps[p] = self.atom()
+        return ["e", nid, cls, ps]
+
+
+def show_tree(node, pool):
+    if node[0] == "a":
+        return "a%d" % node[1]
+    if node[0] == "n":
+        return "n[" + ",".join("%s=%s" % (k, show_tree(v, pool)) for k, v in node[1]) + "]"
+    _, nid, cls, ps = node[:4]
+    fitted = "T" if (len(node) > 4 and node[4]) else "F"
+    return "e%d:%s:%s:%s(" % (nid, cls, pool[cls]["impl"], fitted) + ",".join(
+        "%s=%s" % (k, show_tree(ps[k], pool)) for k in sorted(ps)) + ")"
+
+
+def keys_of(node, pool, prefix=()):
+    """all (path, node) addressable by set_params on this estimator node (params, components, nested)"""
+    out = []
+    if node[0] != "e":
+        return out
+    spec = pool[node[2]]
+    for p, v in node[3].items():
+        out.append((prefix + (p,), v, "param"))
+        if v[0] == "e":
+            out.extend(keys_of(v, pool, prefix + (p,)))
+        if v[0] == "n" and p == spec.get("named"):
+            for nm, cv in v[1]:
+                out.append((prefix + (nm,), cv, "comp"))
+                if cv[0] == "e":
+                    out.extend(keys_of(cv, pool, prefix + (nm,)))
+    return out
+
+
+def gen_ops(rng, gen, tree, pool, n_ops, allow_bad=True):
+    """a history; set values refer to fresh sub-trees.  Ops that are meant to fail come last."""
+    ops = []
+    root_spec = pool[tree[2]]
+    for _ in range(n_ops):
+        r = rng.random()
+        if r < 0.22:
+            ops.append("get:" + rng.choice("TTF"))
+        elif r < 0.72:
+            ks = keys_of(tree, pool)
+            if not ks:
+                continue
+            kvs = []
+            for _ in range(rng.choice([1, 1, 1, 2, 2, 3])):
+                path, node, kind = rng.choice(ks)
+                if any(p == "__".join(path) for p, _ in kvs):
+                    continue
+                spec_named = None
+                # whole list of named components?
+                if node[0] == "n" and kind == "param":
+                    n = rng.choice([1, 2, 3])
+                    val = ["n", [[nm, gen.est(1)] for nm in rng.sample(COMP_NAMES, n)]]
+                elif kind == "comp" or node[0] == "e":
+                    val = gen.est(rng.choice([1, 1, 2])) if rng.random() < 0.8 else gen.atom()
+                else:
+                    val = gen.atom() if rng.random() < 0.85 else gen.est(1)
+                kvs.append(("__".join(path), val))
+            # order-sensitive extras: a nested key under a value that is being replaced in the same call
+            if kvs and rng.random() < 0.35:
+                k0, v0 = kvs[0]
+                if v0[0] == "e" and pool[v0[2]]["params"]:
+                    kvs.append((k0 + "__" + rng.choice(pool[v0[2]]["params"]), gen.atom()))
+                elif v0[0] == "n" and v0[1]:
+                    nm = rng.choice(v0[1])[0]
+                    pre = k0.rsplit("__", 1)[0] + "__" if "__" in k0 else ""
+                    kvs.append((pre + nm, gen.est(1)))
+            if kvs:
+                rng.shuffle(kvs)
+                ops.append("set:" + "|".join("%s=%s" % (k, show_tree(v, pool)) for k, v in kvs))
+        elif r < 0.84:
+            ops.append("clone")
+        elif r < 0.9:
+            ops.append("fitted")
+        elif r < 0.95 and "named" in root_spec:
+            names = rng.choice([["a", "b"], ["a", "a"], ["x__y"], [root_spec["named"]], ["n_jobs", "z"], [], ["q"]])
+            ops.append("checknames:" + (",".join(names) or "-"))
+        else:
+            ops.append("apply")
+    if allow_bad and rng.random() < 0.35:
+        ks = keys_of(tree, pool)
+        kind = rng.choice(["unknown", "nested-unknown", "nested-on-atom", "deep-unknown"])
+        if kind == "unknown" or not ks:
+            ops.append("set:zz_unknown=a1")
+        elif kind == "nested-unknown":
+            ests = [k for k in ks if k[1][0] == "e"]
+            if ests:
+                ops.append("set:%s__zz_unknown=a1" % "__".join(rng.choice(ests)[0]))
+        elif kind == "nested-on-atom":
+            atoms = [k for k in ks if k[1][0] != "e" and len(k[0]) == 1]
+            if atoms:
+                ops.append("set:%s__x=a1" % "__".join(rng.choice(atoms)[0]))
+        else:
+            ops.append("set:zz__deep__key=a1")
+    return ops
+
+
+# ---- real side ---------------------------------------------------------------------------------
+ATOM_BASE = 1000
+
+
+def atom_value(i):
+    if i == 0:
+        return None
+    if i == 900:
+        return "drop"
+    return ATOM_BASE + i
+
+
+class World:
+    """real objects built from an abstract tree, with the identity map real object -> node id"""
+
+    def __init__(self, pool):
+        self.pool = pool
+        self.ids = {}
+        self.keep = []
+        self.classes = {}
+
+    def cls(self, key):
+        if key not in self.classes:
+            if key in EXTERNAL_CLASSES:
+                m = importlib.import_module(EXTERNAL_CLASSES[key][0])
+                self.classes[key] = getattr(m, key)
+            else:
+                c = build_table()["data"]["classes"][key]
+                self.classes[key] = R.load_class(c["module"], c["name"])[0]
+        return self.classes[key]
+
+    def build(self, node, triples=False):
+        if node[0] == "a":
+            return atom_value(node[1])
+        if node[0] == "n":
+            if triples:
+                return [(nm, self.build(v), 0) for nm, v in node[1]]
+            return [(nm, self.build(v)) for nm, v in node[1]]
+        _, nid, key, ps = node[:4]
+        spec = self.pool[key]
+        kw = {p: self.build(v, triples=bool(spec.get("triples")) and p == spec.get("named")) for p, v in ps.items()}
+        obj = self.cls(key)(**kw)
+        self.ids[id(obj)] = nid
+        self.keep.append(obj)
+        return obj
+
+    def ref(self, v):
+        if v is None:
+            return "a0"
+        if isinstance(v, str) and v == "drop":
+            return "a900"
+        if isinstance(v, (int, np.integer)) and not isinstance(v, bool) and v >= ATOM_BASE:
+            return "a%d" % (int(v) - ATOM_BASE)
+        if hasattr(v, "get_params") and not isinstance(v, type):
+            return "e%s" % self.ids.get(id(v), "?")
+        if isinstance(v, (list, tuple)) and all(isinstance(t, tuple) and len(t) in (2, 3) and isinstance(t[0], str) for t in v):
+            parts = []
+            for t in v:
+                x = t[1]
+                if hasattr(x, "get_params") and not isinstance(x, type):
+                    parts.append("%s:e%s" % (t[0], self.ids.get(id(x), "?")))
+                elif isinstance(x, (list, tuple)):
+                    parts.append("%s:n" % t[0])
+                else:
+                    parts.append("%s:%s" % (t[0], self.ref(x)))
+            return "n[" + ",".join(parts) + "]"
+        return "a?"
+
+    def key_of(self, obj):
+        n = type(obj).__name__
+        return n
+
+    def show(self, v):
+        """abstract a real value back into tree syntax"""
+        if hasattr(v, "get_params") and not isinstance(v, type):
+            key = self.key_of(v)
+            spec = self.pool.get(key)
+            if spec is None:
+                return "e?:%s" % key
+            try:
+                fitted = bool(v.is_fitted) if hasattr(type(v), "is_fitted") else False
+            except Exception:
+                fitted = False
+            items = []
+            for p in sorted(type(v)._get_param_names()):
+                try:
+                    items.append("%s=%s" % (p, self.show(getattr(v, p))))
+                except AttributeError:
+                    items.append("%s=missing" % p)
+            return "e%s:%s:%s:%s(%s)" % (self.ids.get(id(v), "?"), key, spec["impl"], "T" if fitted else "F", ",".join(items))
+        if isinstance(v, (list, tuple)) and all(isinstance(t, tuple) and len(t) in (2, 3) and isinstance(t[0], str) for t in v) and (
+                len(v) > 0 or isinstance(v, list)):
+            return "n[" + ",".join("%s=%s" % (t[0], self.show(t[1])) for t in v) + "]"
+        return self.ref(v)
+
+    def adopt_clone(self, orig, new):
+        """give the nodes of a clone the ids of the nodes they were cloned from"""
+        if hasattr(orig, "get_params") and hasattr(new, "get_params") and type(orig) is type(new):
+            if id(orig) in self.ids:
+                self.ids[id(new)] = self.ids[id(orig)]
+                self.keep.append(new)
+            try:
+                po, pn = orig.get_params(deep=False), new.get_params(deep=False)
+            except Exception:
+                return
+            for k in po:
+                if k in pn:
+                    self.adopt_clone(po[k], pn[k])
+        elif isinstance(orig, (list, tuple)) and isinstance(new, (list, tuple)) and len(orig) == len(new):
+            for a, b in zip(orig, new):
+                self.adopt_clone(a, b)
+
+
+def parse_tree(s):
+    """tree syntax -> node (same grammar as the Lean driver)"""
+    pos = 0
+
+    def ident():
+        nonlocal pos
+        j = pos
+        while j < len(s) and (s[j].isalnum() or s[j] in "_.@"):
+            j += 1
+        out = s[pos:j]
+        pos = j
+        return out
+
+    def items(close):
+        nonlocal pos
+        out = []
+        while s[pos] != close:
+            if s[pos] == ",":
+                pos += 1
+            k = ident()
+            assert s[pos] == "=", (s, pos)
+            pos += 1
+            out.append([k, val()])
+        pos += 1
+        return out
+
+    def val():
+        nonlocal pos
+        if s.startswith("n[", pos):
+            pos += 2
+            return ["n", items("]")]
+        if s[pos] == "a":
+            pos += 1
+            return ["a", int(ident())]
+        assert s[pos] == "e", (s, pos)
+        pos += 1
+        nid = int(ident())
+        pos += 1
+        cls = ident()
+        pos += 1
+        j = s.index(":", pos)
+        pos = j + 1
+        fitted = s[pos] == "T"
+        pos += 2
+        ps = dict(items(")"))
+        return ["e", nid, cls, ps, fitted]
+    v = val()
+    assert pos == len(s), (s, pos)
+    return v
+
+
+def first_guarded_method(obj, key):
+    """an apply-type method of the root whose guard the table proves (model: `applyGuarded`)"""
+    if key in EXTERNAL_CLASSES:
+        return None
+    st = static_of(key)
+    for m in APPLY:
+        if st["guards"].get(m) == "G" and R._has_method(obj, m):
+            return m
+    return None
+
+
+def real_tree(case):
+    pool = pool_classes()
+    try:
+        tree = parse_tree(case["tree"])
+    except Exception:
+        return "bad-tree"
+    for key in _classes_in(tree):
+        if key not in pool:
+            return "skip:class-not-in-pool:" + key
+    W = World(pool)
+    try:
+        obj = W.build(tree)
+    except BaseException as e:
+        return "E:construct:" + canon_err(e)
+    outs = []
+    D = R.data()
+    from sklearn.base import clone
+    import warnings
+    for op in case["ops"]:
+        name, _, arg = op.partition(":")
+        try:
+            with warnings.catch_warnings():
+                warnings.simplefilter("ignore")
+                if name == "get":
+                    d = obj.get_params(deep=(arg == "T"))
+                    outs.append(",".join("%s=%s" % (k, W.ref(d[k])) for k in sorted(d)) or "-")
+                elif name == "set":
+                    kw = {}
+                    for kv in arg.split("|"):
+                        k, _, vs = kv.partition("=")
+                        node = parse_tree(vs)
+                        spec_named = False
+                        kw[k] = W.build(node, triples=_is_triples_key(obj, k, pool))
+                    try:
+                        r = obj.set_params(**kw)
+                        outs.append("ok " + W.show(obj) + ("" if r is obj else " returned-other"))
+                    except BaseException as e:
+                        outs.append(_tree_err(e))
+                elif name == "clone":
+                    c = clone(obj)
+                    W.adopt_clone(obj, c)
+                    obj = c
+                    outs.append(W.show(obj))
+                elif name == "fit":
+                    fam = R.family(type(obj))
+                    a, k = R.fit_args(fam, type(obj).__name__, D)
+                    r = obj.fit(*a, **k)
+                    outs.append(W.show(obj) + ("" if r is obj else " returned-other"))
+                elif name == "fitted":
+                    outs.append("T" if obj.is_fitted else "F")
+                elif name == "apply":
+                    m = first_guarded_method(obj, type(obj).__name__)
+                    if m is None:
+                        outs.append("E:notfitted" if not _safe_fitted(obj) else "ok")   # nothing to call: vacuous
+                    else:
+                        a, k = R.call_args(R.family(type(obj)), m, D)
+                        try:
+                            getattr(obj, m)(*a, **k)
+                            outs.append("ok")
+                        except BaseException as e:
+                            outs.append("E:notfitted" if R._is_notfitted(e) else ("ok" if _safe_fitted(obj) else _tree_err(e)))
+                elif name == "checknames":
+                    names = [] if arg == "-" else arg.split(",")
+                    try:
+                        obj._check_names(names)
+                        outs.append("ok")
+                    except BaseException as e:
+                        outs.append(_tree_err(e))
+                else:
+                    return "bad-op"
+        except BaseException as e:
+            if isinstance(e, (KeyboardInterrupt, SystemExit)):
+                raise
+            outs.append("E:op-%s:%s" % (name, canon_err(e)))
+    return " ; ".join(outs)
+
+
+def _safe_fitted(obj):
+    try:
+        return bool(obj.is_fitted)
+    except Exception:
+        return False
+
+
+def _tree_err(e):
+    if R._is_notfitted(e):
+        return "E:notfitted"
+    return {"ValueError": "E:value", "AttributeError": "E:attr", "TypeError": "E:type"}.get(type(e).__name__, canon_err(e))
+
+
+def _is_triples_key(obj, key, pool):
+    """a whole-list value for ColumnEnsembleClassifier.estimators needs (name, est, col) triples"""
+    parts = key.split("__")
+    cur = obj
+    for p in parts[:-1]:
+        try:
+            d = cur.get_params(deep=True)
+            cur = d[p]
+        except Exception:
+            return False
+    spec = pool.get(type(cur).__name__, {})
+    return bool(spec.get("triples")) and parts[-1] == spec.get("named")
+
+
+def _classes_in(node):
+    if node[0] == "e":
+        yield node[2]
+        for v in node[3].values():
+            yield from _classes_in(v)
+    elif node[0] == "n":
+        for _, v in node[1]:
+            yield from _classes_in(v)
+
+
+def oracle_tree(case, real):
+    """Property clauses that can be read off a single history without the model."""
+    fails = []
+    if real.startswith("skip") or real in ("bad-tree", "bad-op"):
+        return fails
+    root = case["tree"].split("(")[0].split(":")[1] if case["tree"].startswith("e") else "?"
+    if real.startswith("E:construct"):
+        fails.append(("%s:tree-construct" % root, "constructing the composition failed: " + real))
+        return fails
+    outs = real.split(" ; ")
+    cur_tree = case["tree"]
+    for op, out in zip(case["ops"], outs):
+        name, _, arg = op.partition(":")
+        if out.startswith("E:op-"):
+            fails.append(("%s:%s-raised" % (root, name), "%s on %s raised %s" % (op[:80], root, out)))
+            continue
+        if name == "set":
+            keys = [kv.split("=", 1)[0] for kv in arg.split("|")]
+            unknown = [k for k in keys if k.split("__")[0].startswith("zz")]
+            if unknown and out != "E:value":
+                fails.append(("%s:unknown-param" % root, "set_params(%s) on %s was not rejected with ValueError: %s" % (unknown[0], root, out[:60])))
+            if " returned-other" in out:
+                fails.append(("%s:set_params-returns" % root, "set_params did not return self"))
+        if name == "clone":
+            if ":T(" in out:
+                fails.append(("%s:clone-fitted" % root, "a clone contains a fitted estimator: " + out[:120]))
+        if name == "apply" and out not in ("E:notfitted", "ok"):
+            fails.append(("%s:apply-unfitted" % root, "guarded method on %s: %s" % (root, out)))
+    return fails
+
+
+# ------------------------------------------------------------------------------------------------
+#  runner interface
+# ------------------------------------------------------------------------------------------------
+def to_line(case):
+    if case["kind"] == "table":
+        T = build_table()
+        if case["cls"] not in T["summary"]:
+            return None
+        return "C04 table %d %s" % (T["ids"][case["cls"]], T["summary"][case["cls"]])
+    if case["kind"] == "tree":
+        return "C04 seq %s %s" % (case["tree"], " ".join(case["ops"]))
+    return None
+
+
+def run_real(case):
+    if case["kind"] == "table":
+        return real_table(case)
+    out = real_tree(case)
+    R._guard_globals()
+    return out
+
+
+def compare(real, model):
+    if model.startswith("params="):
+        return compare_table(real, model)
+    if real.startswith("skip"):
+        return True
+    return real == model
+
+
+def oracle(case, real):
+    if case["kind"] == "table":
+        return oracle_table(case, real)
+    return oracle_tree(case, real)
+
+
+def nontrivial(case, real):
+    if case["kind"] == "table":
+        return not real.startswith("skip") and real != "gone"
+    return " ; " in real or real.startswith("ok") or "=" in real
+
+
+def features(case, real):
+    if case["kind"] == "table":
+        if real.startswith("skip"):
+            return ["table:static-only"]
+        if real == "gone":
+            return ["table:gone"]
+        f = ["table:dynamic"]
+        r = _sfields(real)
+        st = static_of(case["cls"])
+        for tok in _lst(r["ctor"]):
+            f.append("ctor:" + tok)
+        for m, tok in zip(APPLY, _lst(r["guards"])):
+            if tok != "-":
+                f.append("guard:%s" % (tok if tok in ("NF", "skip") else "other"))
+                if tok == "NF" and st["guards"].get(m) != "G":
+                    f.append("guard:observed-NF-but-not-proved")
+        if r["fit"] != "skip":
+            f.append("fit:ran")
+        for p in st["params"]:
+            if st["ctor"][p] != "S":
+                f.append("ctor-static:" + st["ctor"][p])
+        return f
+    f = ["tree:ops=%d" % len(case["ops"]), "tree:root=" + (case["tree"].split(":")[1] if ":" in case["tree"] else "?"),
+         "tree:depth=%d" % case.get("depth", 0)]
+    for op, out in zip(case["ops"], real.split(" ; ")):
+        f.append("op:%s:%s" % (op.split(":")[0], "err" if out.startswith("E:") else "ok"))
+    return f
+
+
+def is_exhaustive(tier):
+    return tier == "thorough"
+
+
+def exhaustive_scope(pool):
+    """fixed order: every composite class with two fixed leaf components; for every key of get_params(deep=True)
+    one set_params of that key followed by get_params."""
+    cases = []
+    leaves = [k for k in ("NaiveForecaster", "BoxCoxTransformer", "LinearRegression") if k in pool]
+    if not leaves:
+        return cases
+    for key in sorted(pool):
+        spec = pool[key]
+        if not spec["est"] and "named" not in spec:
+            continue
+        for variant in range(len(leaves)):
+            g = Gen(_FixedRng(), pool)
+            nid = [100]
+
+            def leaf(i):
+                lk = leaves[(variant + i) % len(leaves)]
+                nid[0] += 1
+                return ["e", nid[0], lk, {p: ["a", (j + i) % 7 + 1] for j, p in enumerate(pool[lk]["params"])}]
+            ps = {}
+            for j, p in enumerate(spec["params"]):
+                if p in spec.get("pin", {}):
+                    ps[p] = ["a", 900]
+                elif p == spec.get("named"):
+                    ps[p] = ["n", [["a", leaf(0)], ["b", leaf(1)]]]
+                elif p in spec["est"]:
+                    ps[p] = leaf(2)
+                else:
+                    ps[p] = ["a", j % 7 + 1]
+            tree = ["e", 100, key, ps]
+            ts = show_tree(tree, pool)
+            for path, node, kind in keys_of(tree, pool):
+                if path[-1] in spec.get("pin", {}):
+                    continue
+                k = "__".join(path)
+                if node[0] == "n":
+                    val = "n[c=%s]" % show_tree(leaf(3), pool)
+                elif node[0] == "e":
+                    val = show_tree(leaf(4), pool)
+                else:
+                    val = "a7"
+                cases.append({"kind": "tree", "tree": ts, "ops": ["set:%s=%s" % (k, val), "get:T"], "depth": 2})
+                if node[0] == "e":
+                    cases.append({"kind": "tree", "tree": ts, "ops": ["set:%s=a0" % k, "get:T", "clone"], "depth": 2})
+    return cases
+
+
+class _FixedRng:
+    def random(self):
+        return 0.5
+
+    def choice(self, l):
+        return l[0]
+
+    def sample(self, l, n):
+        return l[:n]
+
+
+def gen_cases(tier, rng):
+    T = build_table()
+    cases = [{"kind": "table", "cls": k} for k in T["data"]["estimators"]]
+    pool = pool_classes()
+    ex = exhaustive_scope(pool)
+    if tier == "quick":
+        off = rng.randrange(8)
+        ex = [c for i, c in enumerate(ex) if i % 8 == off]
+    cases.extend(ex)
+    n = 220 if tier == "quick" else 4000
+    for i in range(n):
+        g = Gen(rng, pool)
+        depth = rng.choice([1, 2, 2, 3, 3])
+        tree = g.est(depth, cls=rng.choice(g.comps) if g.comps and rng.random() < 0.85 else None)
+        g.next_id = 500
+        ops = gen_ops(rng, g, tree, pool, rng.choice([2, 3, 4, 5, 6]))
+        if ops:
+            cases.append({"kind": "tree", "tree": show_tree(tree, pool), "ops": ops, "depth": depth})
+    return cases
+
+
+def shrink(case):
+    if case["kind"] != "tree":
+        return
+    ops = case["ops"]
+    for i in range(len(ops)):
+        yield dict(case, ops=ops[:i] + ops[i + 1:])
+    for i, op in enumerate(ops):
+        if op.startswith("set:") and "|" in op:
+            kvs = op[4:].split("|")
+            for j in range(len(kvs)):
+                yield dict(case, ops=ops[:i] + ["set:" + "|".join(kvs[:j] + kvs[j + 1:])] + ops[i + 1:])
